@@ -91,16 +91,16 @@ report the list of refactorings, the suite result and both digests.
 '''
 
 TARGETS = {
-    'B11': 'pyx12/x12n_document.py (function x12n_document) ',
-    'B12': 'pyx12/map_if.py: classes x12_node, map_if, loop_if and function load_map_file (NOT the is_valid methods)',
-    'B13': 'pyx12/codes.py, pyx12/dataele.py and pyx12/map_index.py',
-    'B14': 'pyx12/error_handler.py: classes err_iter, err_node, err_isa, err_gs, err_st, err_seg, err_ele (NOT class err_handler)',
-    'B15': 'pyx12/x12context.py: class X12ContextReader (iter_segments, _add_segment, _add_loop_node ...) and class X12SegmentDataNode',
-    'B16': 'pyx12/x12xml.py and pyx12/x12xml_simple.py',
-    'B17': 'pyx12/error_html.py (class error_html and the module functions) and pyx12/error_visitor.py',
-    'B18': 'pyx12/map_if.py: class segment_if methods OTHER than is_valid (is_match, get_unique_key_id_element, _split_syntax, guess_unique_key_id_element ...), class composite_if and element_if methods other than is_valid',
-    'B19': 'pyx12/segment.py: classes Element and Composite, and Segment methods other than __init__/set/_parse_refdes (get, get_value, format, copy, is_empty, values_iterator ...); pyx12/validation.py: contains_control_character and the top level of IsValidDataType',
-    'B20': 'pyx12/error_997.py (class error_997_visitor): a different set of refactorings than extracting _write_ak3: restructure visit_root_pre/visit_root_post/visit_gs_post/visit_st_post',
+    'B21': 'pyx12/x12file.py (classes X12Base, X12Reader, X12Writer).  Prefer LARGE structural refactorings here: split _parse_segment into one private method per segment id, table-driven dispatch, merged duplicated blocks',
+    'B22': 'pyx12/map_walker.py and pyx12/nodeCounter.py.  Prefer LARGE structural refactorings: split walk() into private helpers, early returns, merged duplicated blocks',
+    'B23': 'pyx12/map_if.py: the is_valid methods of segment_if, element_if and composite_if (and _is_valid_code).  Prefer LARGE structural refactorings: one private helper per kind of check, early returns, merged duplicated blocks',
+    'B24': 'pyx12/error_handler.py: class err_handler (handle_errors, add_*_loop, close_*_loop, *_error, add_seg, add_ele, _add_cur_seg ...).  Prefer structural refactorings: table-driven dispatch in handle_errors, extracted helpers, early returns',
+    'B25': 'pyx12/error_999.py and pyx12/error_997.py: visit_seg, visit_ele, visit_st_pre/post, visit_gs_pre/post and the __get_*_errors helpers.  Prefer structural refactorings: shared helpers, table lookups, comprehension/loop conversions',
+    'B26': 'pyx12/x12context.py: classes X12DataNode and X12LoopDataNode (the tree API: get_value, set_value, exists, count, select, first, add_*, delete_*, copy, iterate_*).  Prefer structural refactorings: shared private helpers for the path resolution, early returns',
+    'B27': 'pyx12/validation.py and pyx12/syntax.py.  Prefer structural refactorings: table-driven month lengths, extracted helpers per note type / per data type, early returns',
+    'B28': 'pyx12/segment.py and pyx12/path.py.  Prefer structural refactorings: extracted helpers, merged duplicated code in get/get_value/set/is_*, early returns',
+    'B29': 'pyx12/rawx12file.py, pyx12/scripts/x12norm.py, pyx12/xmlx12_simple.py and pyx12/xmlwriter.py.  Prefer structural refactorings: extracted helpers, table lookups, loop restructuring',
+    'B30': 'pyx12/x12n_document.py (function x12n_document).  Prefer LARGE structural refactorings: split the body of the segment loop into private module functions (one for the control segments, one per trailer, one for the HTML/XML sinks), table-driven dispatch',
 }
 
 
